@@ -533,7 +533,7 @@ def w9(run: Run, cy: CyProgram):
         def term(x):
             if x.k == "index" and pp(x.a[0]) == arr:
                 idx = [pp(i) for i in x.a[1]]
-                return ("D", frozenset(idx)) if len(idx) == 2 else ("deg", idx[0])
+                return ("D", tuple(sorted(idx))) if len(idx) == 2 else ("deg", idx[0])
             return None
         for di, conj in enumerate(_dnf(rets[0].a[0])):
             n += 1
@@ -560,8 +560,8 @@ def w9(run: Run, cy: CyProgram):
                     continue
                 parent[find(a)] = find(b)
             if kind == "len":
-                old = sorted(repr(find(("D", frozenset(e)))) for e in removed)
-                new = sorted(repr(find(("D", frozenset(e)))) for e in added)
+                old = sorted(repr(find(("D", tuple(sorted(e))))) for e in removed)
+                new = sorted(repr(find(("D", tuple(sorted(e))))) for e in added)
             else:
                 old = sorted(repr(sorted(repr(find(("deg", v))) for v in e)) for e in removed)
                 new = sorted(repr(sorted(repr(find(("deg", v))) for v in e)) for e in added)
